@@ -103,6 +103,9 @@ class GitView:
             return self.head_hash
         if sym in st.get("branches", {}):
             return sim.commit_hash(st["branches"][sym])
+        if sym in st.get("tags", {}):
+            # a tag names a commit - whether it is a lightweight or an annotated one
+            return sim.commit_hash(st["tags"][sym]["commit"])
         cands = [n for n in st.get("commits", {}) if sim.commit_hash(n).startswith(sym)]
         if len(sym) >= 4 and len(cands) == 1:
             return sim.commit_hash(cands[0])
